@@ -390,6 +390,11 @@ class TimeoutAfter:
         if timed_out_deadline is None:
             return False
         if uncaught:
+            # The recorded deadline belongs to an inner timeout that has already exited.
+            # That is an uncaught timeout only if its TaskTimeout is what is propagating;
+            # anything else is a genuine cancellation of the task and must pass through.
+            if exc_type is not TaskTimeout:
+                return False
             raise UncaughtTimeoutError('uncaught timeout received')
         if exc_type is TimeoutCancellationError:
             return False
